@@ -68,14 +68,15 @@ pub mod __private {
 
 // The modules containing error types and other helpers.
 
-#[cfg(feature = "add")]
+// `Mul`-like derives with `#[mul(forward)]` expand the same way as `Add`-like ones do.
+#[cfg(any(feature = "add", feature = "mul"))]
 mod add;
-#[cfg(feature = "add")]
+#[cfg(any(feature = "add", feature = "mul"))]
 pub use crate::add::{BinaryError, WrongVariantError};
 
-#[cfg(any(feature = "add", feature = "not"))]
+#[cfg(any(feature = "add", feature = "mul", feature = "not"))]
 mod ops;
-#[cfg(any(feature = "add", feature = "not"))]
+#[cfg(any(feature = "add", feature = "mul", feature = "not"))]
 pub use crate::ops::UnitError;
 
 #[cfg(feature = "as_ref")]
